@@ -65,4 +65,22 @@ PROPS = {
             {"name": "fuzz", "run": "FuzzCmdJSON", "kind": "fuzz", "tiers": [T], "fuzztime": "60s", "timeout": 600},
         ],
     },
+    "C04": {
+        "pkg": "c04",
+        "rule": ("for the three functions with a changeability flag (loadControlLimitListData, setpointListData, "
+                 "deviceConfigurationKeyValueListData): rapid draws an existing list of 1..4 elements with flags in {true,false,absent} "
+                 "and an authorised, acknowledged remote write of every shape (full, partial with ids, id-less, selector, delete+selector, "
+                 "delete+elements, delete+selector+elements, delete+partial; written items with or without a flag); the write is sent by a "
+                 "bound peer to a fresh world and judged by the validity predicate P1..P5, P7 over (before, write, result, after) and by "
+                 "the metamorphic relation P6 (same write on a world without the unaddressed elements / with their flags toggled). The sweep "
+                 "enumerates all lists over ids 0..n-1 x 3 flag states x all shapes x target ids. Non-trivial: the list mixes >=2 flag "
+                 "states and the write addresses >=1 element. Distinct by (function, shape, flag pattern, addressed set, verdict)."),
+        "assumptions": ["a full (filter-less) write addresses the whole list; items of a write that match nothing may be appended or ignored; "
+                        "the verdict of a combined delete+partial that re-creates an element is not fixed",
+                        "P4 compares the addressed changeable elements with the reference fold, ignoring the flag field itself"],
+        "runs": [
+            {"name": "protect", "run": "TestWriteProtection", "kind": "rapid", "checks": {Q: 8000, T: 320000}, "shards": {Q: 4, T: 16}},
+            {"name": "sweep", "run": "TestSweep", "kind": "plain", "shards": {Q: 4, T: 16}, "env": {"VERIF_SWEEP_LEN": {Q: 3, T: 4}}},
+        ],
+    },
 }
